@@ -289,6 +289,68 @@ BivarAt(a, M, c) ==
        ELSE <<TRUE, IF small THEN BwDown(ratio) ELSE ratio, sumd>>
 BivarFallback(a, M) == FxMul(MadAbout(a, M), K14826)
 
+(* ------------------------------------------------------------------------------------------ Gaussian KDE, mode *)
+(* exp(-z) for a fixed-point z >= 0: 0 beyond z = 32 (< 1.3 * 10^-14); else y = z / 2^8 <= 1/8, the Taylor           *)
+(* polynomial of degree 8 in Horner form (remainder y^9/9! < 4 * 10^-14) and eight squarings.  Every product           *)
+(* truncates at 10^-12, so the absolute error of the result is below 10^-8 (256 * 3 * 10^-11).                          *)
+FxInv(k) == FxFromRat(1, k)
+FxInv2 == FxInv(2)  FxInv3 == FxInv(3)  FxInv4 == FxInv(4)  FxInv5 == FxInv(5)
+FxInv6 == FxInv(6)  FxInv7 == FxInv(7)  FxInv8 == FxInv(8)  FxInv256 == FxInv(256)
+FxInvOf(k) == CASE k = 1 -> FxOne [] k = 2 -> FxInv2 [] k = 3 -> FxInv3 [] k = 4 -> FxInv4 [] k = 5 -> FxInv5
+                [] k = 6 -> FxInv6 [] k = 7 -> FxInv7 [] k = 8 -> FxInv8
+RECURSIVE ExpHorner(_, _, _)
+ExpHorner(y, k, t) == IF k = 0 THEN t ELSE ExpHorner(y, k - 1, ZSub(FxOne, FxMul(FxMul(y, t), FxInvOf(k))))
+RECURSIVE FxSquareTimes(_, _)
+FxSquareTimes(x, k) == IF k = 0 THEN x ELSE FxSquareTimes(FxMul(x, x), k - 1)
+FxExpNeg(z) == IF ZLe(FxFromInt(32), z) THEN ZZero
+               ELSE FxSquareTimes(ExpHorner(FxMul(z, FxInv256), 8, FxOne), 8)
+(* floor of the fifth root of a magnitude: integer Newton iteration from above (g >= root), g' = (4g + x/g^4) / 5 *)
+RECURSIVE MagRoot5Iter(_, _)
+MagRoot5Iter(x, g) ==
+    LET g2 == MagMul(g, g)
+        nx == MagDivFast(MagAdd(MagMulLimb(g, 4), MagDivFast(x, MagMul(g2, g2))), <<5>>)
+    IN IF MagCmp(nx, g) >= 0 THEN g ELSE MagRoot5Iter(x, nx)
+RECURSIVE LeastFifthPowerAtLeast(_, _)
+LeastFifthPowerAtLeast(t, k) == IF k * k * k * k * k >= t THEN k ELSE LeastFifthPowerAtLeast(t, k + 1)
+(* n^(2/5) in fixed point (truncated): fifth root of n^2 * 10^60, started at the least integer k with k^5 >= n^2; n <= 1000 *)
+FxPow25(n) == Z(FALSE, MagRoot5Iter(ShiftL(MagFromNat(n * n), 5 * FL), ShiftL(MagFromNat(LeastFifthPowerAtLeast(n * n, 1)), FL)))
+(* distinct values of a sorted sequence with their multiplicities: <<value, count>> *)
+Multiplicities(t) ==
+    LET n == Len(t)
+        firsts == SelectSeq(Force([i \in 1..n |-> i]), LAMBDA i : i = 1 \/ t[i] # t[i - 1])
+    IN Force([k \in 1..Len(firsts) |->
+                <<t[firsts[k]], (IF k = Len(firsts) THEN n + 1 ELSE firsts[k + 1]) - firsts[k]>>])
+(* scipy.stats.gaussian_kde (Scott's rule): Gaussian kernels of variance h^2 = s^2 * n^(-2/5), s^2 the sample           *)
+(* variance (ddof = 1), one kernel per observation -- so a value observed k times carries k kernels.  The density at   *)
+(* a data point y_i is, up to the common factor 1/(n h sqrt(2 pi)),                                                     *)
+(*      S_i = sum_j mult_j * exp(-(y_i - y_j)^2 * n^(2/5) / (2 s^2)).                                                   *)
+(* KdeScores(a) = <<ys, S>> over the distinct values ys (ascending); a must not be constant.  Each S_i is within         *)
+(* Len(a) * 2 * 10^-8 of its true value (FxExpNeg; the factor q below carries 16 decimals).                             *)
+KdeScores(a) ==
+    LET n == Len(a)
+        ym == Multiplicities(FxSortAsc(a))
+        m == Len(ym)
+        sx == ZSum(a)
+        sxx == ZSum(Force([i \in 1..n |-> ZMul(a[i], a[i])]))
+        R == ZSub(ZMulInt(sxx, n), ZMul(sx, sx))                   \* n(n-1) s^2 * 10^24
+        \* q = n^(2/5) / (2 s^2) * 10^16 = c * n(n-1) * 10^(12+16) / (2 R)
+        q == MagDivFast(ShiftL(MagMul(FxPow25(n).m, MagFromNat(n * (n - 1))), 2 * FL + 1), MagMulLimb(R.m, 2))
+        z(i, j) == LET d == ZSub(ym[i][1], ym[j][1]) IN Z(FALSE, ShiftR(MagMul(MagMul(d.m, d.m), q), 2 * FL + 1))
+        \* the kernel matrix is symmetric: evaluate exp once per unordered pair
+        K == Force([i \in 1..m |-> Force([j \in 1..i |-> IF j = i THEN FxOne ELSE FxExpNeg(z(i, j))])])
+        Kij(i, j) == IF j <= i THEN K[i][j] ELSE K[j][i]
+    IN <<Force([i \in 1..m |-> ym[i][1]]),
+         Force([i \in 1..m |-> ZSum(Force([j \in 1..m |-> ZMulInt(Kij(i, j), ym[j][2])]))])>>
+(* the KDE mode among the data points: the first (smallest) distinct value of maximal score *)
+KdeMode(a) == LET ks == KdeScores(a)
+                  best == CHOOSE i \in 1..Len(ks[1]) : (\A j \in 1..Len(ks[1]) : ZLe(ks[2][j], ks[2][i]))
+                                                        /\ (\A k \in 1..i - 1 : ZLt(ks[2][k], ks[2][i]))
+              IN ks[1][best]
+(* o is a data value whose score is not below any other's by more than tol *)
+IsKdeMode(o, a, tol) ==
+    LET ks == KdeScores(a) IN
+    \E i \in 1..Len(ks[1]) : ZCmp(ks[1][i], o) = 0 /\ \A j \in 1..Len(ks[1]) : ZLe(ks[2][j], ZAdd(ks[2][i], tol))
+
 (* ------------------------------------------------------------------------------------------ smoothing windows *)
 (* plain integers: signal values are grid multiples *)
 CeilDiv(x, y) == (x + y - 1) \div y              \* x >= 0, y > 0
